@@ -6,6 +6,7 @@ package main
 
 import (
 	"context"
+	"math"
 	"sort"
 	"strings"
 	"time"
@@ -159,7 +160,22 @@ func classifyRefFailure(c *Case, impl, ref Canon) []string {
 	if tieSensitive(c.Query) && topkTie(c) {
 		tags = append(tags, "topk-tie")
 	}
+	if (strings.Contains(c.Query, "stddev") || strings.Contains(c.Query, "stdvar") || strings.Contains(c.Query, "avg")) &&
+		(hasNonFinite(impl) || hasNonFinite(ref)) {
+		tags = append(tags, "overflow-in-mean-or-variance")
+	}
 	return tags
+}
+
+func hasNonFinite(c Canon) bool {
+	for _, s := range c.Series {
+		for _, p := range s.Points {
+			if math.IsInf(p.V, 0) || math.IsNaN(p.V) {
+				return true
+			}
+		}
+	}
+	return false
 }
 
 // topkTie reports whether some topk/bottomk of the query sees, at some step and
